@@ -42,7 +42,10 @@ for _pid, _chk in CHECKS.items():
         _rn = dict(_rn)
         _q = _rn['configs']['quick']
         if ('dbg-asan' in _q or _q == ['rel-asan']) and _rn['harness'] not in ('reread', 'mt_private', 'huge'):
-            _rn['configs'] = {'quick': list(_q) + ['clang-uchar-asan'], 'thorough': list(_rn['configs']['thorough']) + ['clang-uchar-asan']}
+            # ... and 'rel-native': the library exactly as shipped (-O2 -DNDEBUG, no sanitizer instrumentation in the way of the
+            # optimiser) under the same workload and the harness's own oracles; crashes are still seen as worker deaths
+            _extra = ['clang-uchar-asan'] + (['rel-native'] if 'rel-native' not in _q else [])
+            _rn['configs'] = {'quick': list(_q) + _extra, 'thorough': list(_rn['configs']['thorough']) + _extra}
             _mc = dict(_rn.get('max_cases', {}))
             if 'rel-asan' in _mc:
                 _mc['clang-uchar-asan'] = _mc['rel-asan']
@@ -51,7 +54,8 @@ for _pid, _chk in CHECKS.items():
     if _new:
         _chk['runs'] = _new
         _chk['assumptions'] = list(_chk.get('assumptions', [])) + [
-            'configuration clang-uchar-asan: the same workload built with clang 14 -funsigned-char under its ASan/UBSan (a second compiler and the char signedness of ARM/PowerPC/RISC-V targets)']
+            'configuration clang-uchar-asan: the same workload built with clang 14 -funsigned-char under its ASan/UBSan (a second compiler and the char signedness of ARM/PowerPC/RISC-V targets)',
+            'configuration rel-native: the same workload on the library as shipped (gcc -O2 -DNDEBUG, no sanitizer), harness oracles only']
 
 # Thread-compatibility supplement: several threads, each with PRIVATE objects of the property's
 # container family, under ThreadSanitizer (harness/mt_private.c).  Hidden shared state in the library
